@@ -295,6 +295,7 @@ func continuation(dir string, sc *Script, nodes []ocicheck.Node, rng *rand.Rand)
 		return nil, &viol{"continuation:reopen-failed", "oci.New: " + err.Error()}
 	}
 	st.AutoSaveIndex, st.AutoGC = sc.AutoSave, sc.AutoGC
+	ocicheck.FirstUseCancelled(st)
 	var done []ocicheck.Op
 	nOps := 1 + rng.IntN(2)
 	for k := 0; k < nOps; k++ {
